@@ -270,6 +270,15 @@ func readerStreams(level int) []Stream {
 	ms := append(append(append(append([]byte(nil), a...), make([]byte, 8)...), b...), make([]byte, 4)...)
 	vc := map[int]bool{len(a): true, len(a) + 4: true, len(a) + 8: true, len(a) + 8 + len(b): true}
 	out = append(out, Stream{Name: "multi-a-pad8-b-pad4", Fmt: "xz", Data: ms, Plain: append(append([]byte(nil), text[:40]...), text[:60]...), Writer: "lib+ref", ValidCuts: vc})
+	if level > 0 {
+		// three streams: padding only between the first two, the third follows directly, then 12 bytes
+		c := mustLibXZ(XZCfg{DictCap: 4096, Check: 10}, text[40:90])
+		m3 := append(append(append(append(append([]byte(nil), a...), make([]byte, 4)...), b...), c...), make([]byte, 12)...)
+		e2 := len(a) + 4 + len(b)
+		e3 := e2 + len(c)
+		vc3 := map[int]bool{len(a): true, len(a) + 4: true, e2: true, e3: true, e3 + 4: true, e3 + 8: true, e3 + 12: true}
+		out = append(out, Stream{Name: "multi-a-pad4-b-c-pad12", Fmt: "xz", Data: m3, Plain: append(append(append([]byte(nil), text[:40]...), text[:60]...), text[40:90]...), Writer: "lib+ref", ValidCuts: vc3})
+	}
 
 	// raw LZMA2
 	add2 := func(name string, data, plain []byte, wr string) {
